@@ -644,6 +644,21 @@ func implC16(h caseHead, raw []byte) (res map[string]any) {
 			res["err"] = fmt.Sprint(r)
 		}
 	}()
+	// the same string where a profile holds paths: as the key of a property constraint and as the argument of a comparison
+	// between properties; the profile parser must accept it there exactly when it is a path
+	if ch.Text != "" {
+		site := func(body string) (verdict string) {
+			verdict = "PANIC"
+			defer func() { recover() }()
+			_, err := verifhook.ParseProfile("profile: P\nprefixes:\n  ex: " + NS + "\nviolation:\n  - v\nvalidations:\n  v:\n    targetClass: ex.T\n    message: m\n    propertyConstraints:\n" + body)
+			if err != nil {
+				return "REJECT"
+			}
+			return "ACCEPT"
+		}
+		res["asKey"] = site("      " + yq(ch.Text) + ":\n        minCount: 1\n")
+		res["asComparison"] = site("      ex.p0:\n        lessThanProperty: " + yq(ch.Text) + "\n")
+	}
 	d, err := verifhook.ParsePath(ch.Text)
 	if err != nil {
 		res["result"] = "REJECT"
